@@ -60,3 +60,26 @@ Definition print_impl_fallback {R E D : Type}
   (m : list (Z * list Z)) (g_flags : Z) (pc : pcs R) (tr_ : list D) : option (list D * pcs R) :=
   print_impl_ref f_begin f_timestamp f_name f_severity f_msg f_first f_pc f_rest f_attrs f_errdump f_end f_bytes d_printout
     m g_flags 128 pc tr_.
+
+(* PrintCtx.Begin / End: what they append to the buffer *)
+Definition pc_begin_ref (jsonMode : bool) (buf : bytes) : option bytes :=
+  Some (buf ++ (if jsonMode then [x7b] else [])).
+Definition pc_end_ref (jsonMode : bool) (buf : bytes) (newline : bool) : option bytes :=
+  Some (buf ++ (if jsonMode then [x7d] else []) ++ (if newline then [x0a] else [])).
+
+(* strings.LastIndex(s, sep) for a one-byte separator: the index of the last occurrence, -1 if none *)
+Fixpoint last_index_from (s : bytes) (c : Z) (i : Z) (acc : Z) : Z :=
+  match s with
+  | [] => acc
+  | b :: t => last_index_from t c (i + 1) (if bz b =? c then i else acc)
+  end.
+Definition str_last_index (s sep : bytes) : Z :=
+  match sep with [c] => last_index_from s (bz c) 0 (-1) | _ => -2 end.   (* the translator's call sites pass one byte *)
+
+(* checkedfuncname: with the package-name flag the provider table is applied, else the text after the last '/' *)
+Definition checked_funcname_ref (f_replace_all : bytes -> bytes -> bytes -> bytes) (g_flags : Z)
+  (providers : list (bytes * bytes)) (name : bytes) : option bytes :=
+  if negb (Z.land g_flags 256 =? 0)
+  then Some (fold_left (fun n (kv_ : bytes * bytes) => let '(k, v) := kv_ in f_replace_all n k v) providers name)
+  else let pos := str_last_index name [x2f] in
+       if 0 <=? pos then str_suffix name (pos + 1) else Some name.
